@@ -710,6 +710,7 @@ def share_bulk(tier, shard, nshards, rec, rng):
     if shard >= len(configs):
         return None
     ex = _explorer(roles, 1)
+    ex2 = _explorer(roles, 1)  # the probes need executions of their own while the exploring execution is parked
     case = dict(roles=roles, rounds=1)
     probes = [0]
 
@@ -723,7 +724,7 @@ def share_bulk(tier, shard, nshards, rec, rng):
         for t in range(w.n):
             if ex_.roles[t] == "R" and w.status[t] == "parked" and not w.entered.get(t):
                 probes[0] += 1
-                if not ex_.solo(list(path), t, lambda w2, t=t: t in w2.holders):
+                if not ex2.solo(list(path), t, lambda w2, t=t: t in w2.holders):
                     raise sched.SchedViolation("reader T%d is kept waiting although reader(s) %s hold the lock and no writer has started acquiring" % (t, readers_in), list(path))
 
     try:
@@ -735,6 +736,7 @@ def share_bulk(tier, shard, nshards, rec, rng):
             return dict(case, schedule=v.schedule), "%s: %s" % (roles, v.msg)
     finally:
         ex.close()
+        ex2.close()
     s = ex.stats
     rec.bulk("lock_share", s["executions"], s["contended"] + probes[0], sample=dict(case, states=s["states"], probes=probes[0]))
     rec.cls("lock.probe_second_reader_enters", probes[0])
